@@ -815,3 +815,34 @@ Arguments state : clear implicits.
 Arguments rbody : clear implicits.
 Arguments response : clear implicits.
 Arguments outcome : clear implicits.
+
+(* ------------------------------------------------------------------------------------------------ *)
+(** * Panic-site accounting (tied to the source by harness/astfacts15 -> gen/Facts15.v, obligation gen/obl_C15.v)  *)
+
+(* Every syntactically unambiguous panic site of the request-handling packages this model accounts for: per Go function
+   (package/Receiver.name -- robust against moved lines and files) the number of unchecked type assertions x.(T),
+   explicit panic(...) calls and calls of known-panicking functions, and HOW the model accounts for them.
+   A site that appears in the source and is not listed here breaks the obligation even if no generated request
+   reaches it. *)
+Definition accounted_sites : list (string * (nat * nat * nat) * string) := [
+  (* m.Attribute(scenarioNameKey).(string): [need_name], a Panic branch when the attribute is absent *)
+  ("api/Mux.writeActiveActionResponse",       (1, 0, 0), "need_name in get_active");
+  ("api/Mux.logApplicableActionsMessage",     (1, 0, 0), "need_name in get_applicable");
+  ("api/Mux.v1GetModelHandler",               (1, 0, 0), "need_name in get_model");
+  ("api/Mux.logScenarioGetResponse",          (1, 0, 0), "need_name in get_scenario");
+  ("api/Mux.logSolutionsGetResponse",         (1, 0, 0), "need_name in get_solutions");
+  ("api/Mux.rememberSolutionsAttributeState", (1, 0, 0), "need_name in post_solutions");
+  ("api/Mux.logSubcatchmentStateMessage",     (1, 0, 0), "need_name in get_subcatchment");
+  ("api/Mux.processSubcatchmentPost",         (1, 0, 0), "need_name in put_subcatchment");
+  (* guarded by the handler itself: HasAttribute(key) is tested first and the attribute is only ever stored as a string *)
+  ("api/Mux.v1GetSolutionHandler",            (1, 0, 0), "st_name matched Some at the top of get_solution (HasAttribute guard)");
+  ("api/Mux.buildScenarioGetResponse",        (1, 0, 0), "st_text matched Some in get_scenario (HasAttribute guard)");
+  ("api/Mux.buildSolutionsGetResponse",       (1, 0, 0), "st_soltext matched Some in get_solutions (HasAttribute guard)");
+  (* CellFloat64: .(float64) on a cell *)
+  ("api/Mux.processTableCell",                (0, 0, 1), "process_cells: Panic when cell 0 of the row is not CF");
+  ("api/Mux.deriveSuppliedActionState",       (0, 0, 1), "process_cells: Panic when an action cell is not CF");
+  (* constant patterns / type facts *)
+  ("api/Mux.deriveSolutionsRequestTable",     (0, 0, 1), "regexp.MustCompile of the constant actionsEncodingPattern (all_chars is_hex_colon)");
+  ("rest/HandlerFunctionMap.AddHandler",      (0, 0, 1), "regexp.MustCompile of the constant route patterns, at Initialise only (route view)");
+  ("api/toCatchmentModel",                    (0, 0, 1), "assert.That(false): the argument is always the DeepClone of a *catchment.Model")
+]%nat.
